@@ -44,6 +44,13 @@ CONFIG = {
              "an only admin with an invalid name; ops per directory: check, list, list-full, init, check, exists; plus histories from init with a check after every operation; "
              "non-trivial = every case; distinct = distinct history terms",
     ),
+    "C05": dict(
+        drivers=[("sasl", "sasl")], run="C05", shard=120, header="From Whawty Require Import SaslCodec SaslServer.",
+        rule="a real sasl.Server on a unix socket with a scripted callback that records its invocations; raw client streams: valid requests (with/without half-close, "
+             "trailing bytes), truncation at every byte (half-closed and abandoned), boundary and over-long fields (255/256/257/1000/65535), empty login/password, random bytes, empty stream; "
+             "callback outcomes ok/no/error x message lengths 0..70000 incl. 252/253/254 and 65533/65534; 2-64 concurrent connections with per-connection answers; "
+             "every reply decoded by sasl.Response.Decode and by the model of the PAM reader; non-trivial = callback invoked or stream longer than 2 bytes; distinct = distinct case terms",
+    ),
     "C13": dict(
         drivers=[("sasl", "sasl")], run="C13", shard=600, header="From Whawty Require Import SaslCodec.",
         rule="cases: boundary-length encodes (exhaustive over {0,1,255,256,257}^4 + 65535/65536), every byte string up to length 5 (7 thorough) "
